@@ -6,9 +6,9 @@ import lib
 IMPORTS = ["Model.EnforcementCheck"]
 
 
-def run(res, props_file, pinned, monitor_tag, extra_assumptions=()):
+def run(res, props_file, pinned, monitor_tag, extra_assumptions=(), pre=None):
     quick = res.tier == "quick"
-    lib.proof_stage(res, props_file, "Props." + props_file[:-2], pinned)
+    lib.proof_stage(res, props_file, "Props." + props_file[:-2], pinned, pre=pre)
     cov = res.coverage
     n_dbg = 220 if quick else 2500
     n_rel = 120 if quick else 1500
